@@ -131,6 +131,10 @@ def embeds(v, r, path, problems, regions, elem=None):
             if isinstance(r, Object):
                 # a class declared in the DSL may give a JSON name any attribute name it likes
                 cands += [a for a, p in type(r).properties.items() if (p.source or a) == k and a not in cands]
+            elif elem is not None and isinstance(getattr(elem, "properties", None), dict):
+                # the same for an untyped element written in the DSL: its result is keyed by the attribute names its own
+                # property mapping declares (`enum_ = Property(..., source="enum")`), whatever the parser would have chosen
+                cands += [a for a, p in elem.properties.items() if (getattr(p, "source", None) or a) == k and a not in cands]
             ok = False
             first_problem = None
             for c in cands:
